@@ -164,3 +164,7 @@ REOPEN = Ob("C03-R1", "R-FLOW", "reopened readers: same path reopened, info clon
 
 from ..obs import argnames as AN
 ARG_NAMES = Ob("C00-A1", "R-FLOW", "swapped-argument rule: no identifier argument is passed under the name of a different same-typed parameter of the callee (repo-wide)", AN.ob_arg_names)
+STREAM_SIBS = Ob("C01-S1", "R-SIB", "iterator-backed sources (fallible/infallible) identical: stored chromosome name kept until it changes, value passed through", PL.ob_stream_siblings)
+ZOOMCOUNT_SIBS = Ob("C07-Z2", "R-SIB", "first-pass zoom counters identical (bigWig/bigBed); every processor calls its per-value function unconditionally; destroy() returns the summary as accumulated", PL.ob_zoom_count_siblings, floor=9)
+PROCESSOR_ARGS = Ob("C01-F5", "R-FLOW", "each processor hands its per-value function the value, the next value, the chromosome length / id and its own state (8 call sites)", SW.ob_processor_args, floor=8)
+PROCESS_DATA = Ob("C01-F6", "R-FLOW", "positional hand-over structs (InternalProcessData, NoZooms.., Zooms..) are built and destructured with the same meaning per position", WF.ob_process_data_positions, floor=6)
